@@ -1,7 +1,8 @@
 ----------------------------- MODULE J_FracMesh -----------------------------
 (***************************************************************************)
 (* C25 judge.  One case = one fracture network meshed by the real code:     *)
-(*   C.in  = [family |-> "lattice" | "simplex", dim, box |-> <<bx,by,bz>>,  *)
+(*   C.in  = [family |-> "lattice" | "tensor" | "simplex", dim,             *)
+(*            box |-> <<bx,by,bz>> (the domain is [0,bx] x [0,by] x [0,bz]), *)
 (*            fracs |-> integer vertex lists (2 end points / 4 corners),     *)
 (*            lat   |-> (lattice family) the network N of FracMesh PART 1,   *)
 (*            path, args : how the driver called porepy (opaque here)]       *)
@@ -9,8 +10,10 @@
 (*            meshing raised: every clause that needs the grid then fails)   *)
 (* Lattice family (exact, tolerance 0): the seven validity clauses AND the  *)
 (* comparison with the unique expected structure (cells of every grid,      *)
-(* coupling pairs).  Simplex family (gmsh; coupling not unique): the        *)
-(* validity clauses only; geometric comparisons are float-judged under the  *)
+(* coupling pairs).  Tensor family (the same networks on non-uniform tensor *)
+(* grids with integer node coordinates) and simplex family (gmsh; coupling  *)
+(* not unique): the validity clauses only.  Geometric comparisons outside   *)
+(* the lattice family are float-judged under the                            *)
 (* DESIGN 8 policy: a clause is violated beyond TolV = 64 units (1e-6);     *)
 (* a case that passes at TolV but not at TolP = 2 units (3e-8) is reported   *)
 (* as inconclusive (Tell record), never as a violation.                      *)
